@@ -78,6 +78,9 @@ func (m modelsim) Run(c *Case, dir string) *Outcome {
 	e := work.NewExec(path, c.Prog.Cfg)
 	e.FileChecks = true
 	e.DeepCursor = true
+	if c.Prop == "C12" {
+		e.BackupEvery = 2
+	}
 	finished := false
 	defer func() {
 		// after a panic in the code under test the DB's locks may be held: leak it
